@@ -515,6 +515,7 @@ class Ctx:
         self._lin_cache: Dict[tuple, Any] = {}
         self._atom_cache: Dict[tuple, Any] = {}
         self._enum_cache: Dict[tuple, int] = {}
+        self._created: Dict[str, Any] = {}
         self.model = None
         if mode == 'sym':
             self.s = solver if solver is not None else z3.Solver()
@@ -525,7 +526,7 @@ class Ctx:
             self.s = None
 
     # -- variable creation -------------------------------------------------------------------
-    def real(self, name: str, lo=None, hi=None, lo_strict: bool = False):
+    def real(self, name: str, lo=None, hi=None, lo_strict: bool = False, reuse: bool = False):
         if self.mode == 'conc':
             # variables declared after the point where a counterexample model was taken get a default inside their bounds
             v = self.model_in.get(name)
@@ -536,6 +537,8 @@ class Ctx:
                 return float(v)
             return _to_py(v, False)
         if name in self.vars:
+            if reuse:
+                return self._created[name]
             raise ValueError(f"duplicate symbolic variable {name}")
         self.vars[name] = ('real', lo, hi)
         x = z3.Real(name)
@@ -544,7 +547,8 @@ class Ctx:
             self.s.add(x > _zval(lo, False) if lo_strict else x >= _zval(lo, False))
         if hi is not None:
             self.s.add(x <= _zval(hi, False))
-        return Sym(self, {name: Fraction(1)}, Fraction(0), is_int=False)
+        self._created[name] = Sym(self, {name: Fraction(1)}, Fraction(0), is_int=False)
+        return self._created[name]
 
     def int_(self, name: str, lo=None, hi=None):
         if self.mode == 'conc':
